@@ -14,11 +14,26 @@ import ptgval_common as pv  # noqa: E402
 DEP_MODES = {"ht": ["-M", "dynamic-hash-table"], "ia": ["-M", "index-array"]}
 
 
+# several virtual processes: vpmap=hwloc on a synthetic hwloc topology, one VP per package (the rr:/file: maps of the
+# pinned tree are not functional); the number of threads then comes from the topology (parsec_init(-1, …))
+VP_TOPOLOGY = {2: "package:2 core:2 pu:1", 3: "package:3 core:1 pu:1"}
+
+
 def split_cfg(cs):
-    """'lfq@ia:4:1:2' -> ('ia', config dict)"""
+    """'lfq@ia@vp2:4:1:2' -> ('ia', config dict); config["vp"] = number of virtual processes (0: default flat map)"""
     w = cs.split(":")
-    s, _, m = w[0].partition("@")
-    return (m or "ht"), ptg_common.parse_config(":".join([s] + w[1:]))
+    fl = w[0].split("@")
+    cfg = ptg_common.parse_config(":".join([fl[0]] + w[1:]))
+    cfg["vp"] = 0
+    mode = "ht"
+    for x in fl[1:]:
+        if x in DEP_MODES:
+            mode = x
+        elif x.startswith("vp"):
+            cfg["vp"] = int(x[2:])
+    if cfg["vp"]:
+        cfg["threads"] = -1
+    return mode, cfg
 
 
 class ValCheck(PtgCheck):
@@ -51,6 +66,8 @@ class ValCheck(PtgCheck):
     def run_cfg(self, exe, cfg, seed):
         env = dict(os.environ)
         env.update(ptg_common.RUN_ENV)
+        if cfg.get("vp"):
+            env.update({"HWLOC_SYNTHETIC": VP_TOPOLOGY[cfg["vp"]], "PARSEC_MCA_runtime_vpmap": "hwloc", "PARSEC_MCA_bind_threads": "0"})
         for attempt in range(3):
             rc, o, e = run([exe] + ptg_common.config_args(cfg, seed), timeout=self.run_timeout, env=env, cwd=os.path.dirname(exe))
             if rc in (0, 124) or "CONFIG" in o:
@@ -63,6 +80,10 @@ class ValCheck(PtgCheck):
         # startup tasks in creation order (driver lines SU, only with -DPTG_RT_TRACE_STARTUP)
         info["startup"] = [(m.group(1), tuple(int(x) for x in m.group(2).split()))
                            for m in re.finditer(r"^SU (\S+) P((?: -?\d+)*)$", o, re.M)]
+        m = re.search(r"^NBVP (\d+)$", o, re.M)
+        info["nbvp"] = int(m.group(1)) if m else None
+        if cfg.get("vp") and info["nbvp"] is not None and info["nbvp"] != cfg["vp"] and info["end"] == "rc=0":
+            info["end"] = "harness-expected-%d-virtual-processes-got-%d" % (cfg["vp"], info["nbvp"])
         # the priority of every invocation (driver field PR)
         prios = [int(m.group(1)) for m in re.finditer(r" ; PR (-?\d+) ; KP ", o)]
         if len(prios) == len(ents):
